@@ -136,7 +136,11 @@ def construct_case(j, e, rng):
          "Twist2": Twist2, "Twist3": Twist3}
     call, expect = e["call"], e["expect"]
     cls, form, kinds = call["cls"], call["form"], call["kinds"]
-    mem = members(cls, rng)
+    spec_cls = cls
+    mcls = cls
+    if cls == "UnitQuaternion(R)":          # unit quaternion built from a 3x3 matrix: items are SO3-like
+        cls, mcls = "UnitQuaternion", "SO3"
+    mem = members(mcls, rng)
     variants = []
     far_present = any(k not in ("valid", "near", "nonunit") for k in kinds)
     mags = FAR_MAGS if far_present else (NEAR_MAGS if "near" in kinds else [1e-3])
@@ -144,13 +148,13 @@ def construct_case(j, e, rng):
         for v in range(3):
             # the entry hit by a defect moves with the variant AND the magnitude index, so that all entries of the
             # rotation block / all off-diagonal entries of a twist matrix are covered across the magnitudes
-            items = [defect(cls, k, mem[(i + v) % len(mem)], mag, v + i + 3 * mi) for i, k in enumerate(kinds)]
+            items = [defect(mcls, k, mem[(i + v) % len(mem)], mag, v + i + 3 * mi) for i, k in enumerate(kinds)]
             variants.append((mag, v, items))
     for mag, v, items in variants:
         arg = items[0] if form == "bare" else (list(items) if form == "list" else tuple(items))
         feat = "%s;%s;mag=%g" % (form, ",".join(kinds), mag)
-        cid = (cls, form, tuple(kinds))
-        site = cls + ".__init__"
+        cid = (spec_cls, form, tuple(kinds))
+        site = ("UnitQuaternion(3x3)" if spec_cls != cls else cls) + ".__init__"
         detail = {"kind": "construct", "cls": cls, "form": form, "kinds": kinds, "mag": mag, "variant": v,
                   "items": [np.asarray(x).tolist() for x in items]}
         try:
